@@ -8,7 +8,7 @@ from engine.flow import (def_types, dominating_guards, guard_atoms, falls_throug
                          reachable_from_entry, returns_of, same_name_value)
 from engine.model import AnalysisError
 from engine.types import ANY, FnTypes
-from .common import (CALLS, DICT_INSERTING, LIST_INSERTING, STATE, container_mutations)
+from .common import (CALLS, DICT_INSERTING, LIST_INSERTING, STATE, called_attr, container_mutations)
 
 META = {
     "explanation": (
@@ -745,8 +745,7 @@ def check_validate_chain(ctx):
                 ok, why = False, "`%s` (line %s) is reachable without self._validate(...)" % (ast.unparse(r.ast), r.lineno)
                 break
             for kind, payload in value_sources(f, r.ast.value, r):
-                good = kind == "expr" and isinstance(payload, ast.Call) and isinstance(payload.func, ast.Attribute) \
-                    and payload.func.attr in ("_validate", "validator")
+                good = kind == "expr" and isinstance(payload, ast.Call) and called_attr(f, payload) in ("_validate", "validator")
                 if not good:
                     ok, why = False, "returned value may be %s %s instead of the validated result" % (
                         kind, ast.unparse(payload)[:40] if isinstance(payload, ast.AST) else payload)
@@ -754,7 +753,7 @@ def check_validate_chain(ctx):
                 break
         ctx.ob("validate.chain", f, "%s: required -> _validate -> validator" % f.qualname, ok, why)
         for n in g.nodes:
-            if n.kind == "call" and isinstance(n.ast.func, ast.Attribute) and n.ast.func.attr in ("validator", "_validate") and len(n.ast.args) == 2:
+            if n.kind == "call" and called_attr(f, n.ast, n) in ("validator", "_validate") and len(n.ast.args) == 2:
                 a0, a1 = n.ast.args
                 okc = all(k == "param" and p == params[1] for k, p in value_sources(f, a0, n)) and not (
                     isinstance(a1, ast.Name) and a1.id == params[1])
